@@ -314,7 +314,7 @@ func (propC14) Gen(r *Rng, run uint64, tier string) *Plan {
 			open = fr.Intn(2)
 		}
 		l, _ := BuildStream(c, stdOpts(), nil)
-		kind := []string{FaultCut, FaultCut, FaultReadError, FaultReadError, FaultFrame, FaultFrame, FaultOpenError, FaultOpenError, FaultListError, FaultCancel, FaultSlowRead, FaultOpenLatency}[fr.Intn(12)]
+		kind := []string{FaultCut, FaultCut, FaultReadError, FaultReadError, FaultFrame, FaultFrame, FaultOpenError, FaultOpenError, FaultListError, FaultCancel, FaultSlowRead, FaultOpenLatency, FaultCloseError}[fr.Intn(13)]
 		if len(l.Ends) == 0 && (kind == FaultCut || kind == FaultFrame || kind == FaultSlowRead) {
 			kind = FaultReadError
 		}
@@ -366,6 +366,9 @@ func (propC14) Gen(r *Rng, run uint64, tier string) *Plan {
 			f.Event = -(1 + fr.Intn(1_000_000)) // relative; resolved against the twin's event count
 		case FaultOpenLatency:
 			f.DelayMs = 1 + fr.Intn(5000)
+		case FaultCloseError:
+			// Close of this reader reports an error: every other reader must still be closed.
+			p.Tags["pos"] = "close"
 		}
 		p.Faults = append(p.Faults, f)
 	}
@@ -485,6 +488,7 @@ func (propC14) Expand(t *testing.T, p *Plan) []*Plan {
 		for _, b := range orders {
 			out = append(out, mk(Fault{Kind: FaultOpenError, Container: oc.ID, Open: oc.OpenIdx}, "open", b))
 		}
+		out = append(out, mk(Fault{Kind: FaultCloseError, Container: oc.ID, Open: oc.OpenIdx}, "close", nil))
 		c := p.World.Find(oc.ID)
 		if c == nil {
 			continue
